@@ -147,15 +147,11 @@ structure Holds (a : Aead) (key : Bytes) (r : Receiver) (cs : List Bytes) : Prop
   wire : r.wire = encode a key r.nonce cs
   sizes : ∀ c ∈ cs, c.length ≤ dataMaxSize
 
-/-- the buffered branch (both versions): serves `recvBuffer`, touches nothing else -/
+/-- the buffered branch: serves `recvBuffer`, reports what it copied, touches nothing else -/
 theorem read_buffered (a : Aead) (key : Bytes) (r : Receiver) (len : Nat) (hb : r.buf ≠ []) :
-    read a key r len = ({ r with buf := r.buf.drop len }, { n := 0, err := .none, written := r.buf.take len }) := by
-  simp [SecretConn.read, hb, drop_take_length]
-
-theorem readFixed_buffered (a : Aead) (key : Bytes) (r : Receiver) (len : Nat) (hb : r.buf ≠ []) :
-    readFixed a key r len =
+    read a key r len =
       ({ r with buf := r.buf.drop len }, { n := (r.buf.take len).length, err := .none, written := r.buf.take len }) := by
-  simp [readFixed, hb, drop_take_length]
+  simp [SecretConn.read, hb, drop_take_length]
 
 /-- empty buffer, nothing on the wire: nothing is delivered and nothing changes but `wire = []` -/
 theorem readFrame_empty (a : Aead) (key : Bytes) (r : Receiver) (len : Nat) (hw : r.wire = []) :
@@ -198,16 +194,33 @@ theorem readFrame_cons (a : Aead) (ha : Good a) (key : Bytes) (r : Receiver) (le
     List.take_left' rfl
   simp only [hchunk, drop_take_length]
 
-/-- the abstract effect of one `Read` (either version) on "buffer + chunks still on the wire" -/
+theorem readFrame_n (a : Aead) (key : Bytes) (r : Receiver) (len : Nat) :
+    (readFrame a key r len).2.n = (readFrame a key r len).2.written.length := by
+  unfold readFrame
+  split
+  · split <;> rfl
+  · dsimp only
+    split
+    · rfl
+    · split
+      · split
+        · rfl
+        · split <;> rfl
+      · rfl
+
+/-- every `Read` reports exactly the number of bytes it copied into the caller's buffer -/
+theorem read_n (a : Aead) (key : Bytes) (r : Receiver) (len : Nat) :
+    (read a key r len).2.n = (read a key r len).2.written.length := by
+  unfold SecretConn.read
+  by_cases hb : r.buf = []
+  · simp [hb, readFrame_n]
+  · simp [hb]
+
+/-- the abstract effect of one `Read` on "buffer + chunks still on the wire" -/
 theorem read_step (a : Aead) (ha : Good a) (key : Bytes) (r : Receiver) (cs : List Bytes) (len : Nat)
     (h : Holds a key r cs) :
     ∃ cs', Holds a key (read a key r len).1 cs' ∧
       (read a key r len).2.written ++ ((read a key r len).1.buf ++ cs'.flatten) = r.buf ++ cs.flatten ∧
-      (readFixed a key r len).1 = (read a key r len).1 ∧
-      (readFixed a key r len).2.written = (read a key r len).2.written ∧
-      (readFixed a key r len).2.n = (read a key r len).2.written.length ∧
-      ((read a key r len).2.n = (read a key r len).2.written.length ∨
-        (r.buf ≠ [] ∧ (read a key r len).2.n = 0)) ∧
       (r.buf = [] → dataMaxSize ≤ len → (read a key r len).1.buf = []) ∧
       ((cs' = cs ∧ (read a key r len).1.nonce = r.nonce) ∨
         (∃ c, cs = c :: cs' ∧ (read a key r len).1.nonce = incr2Nonce r.nonce)) := by
@@ -216,31 +229,24 @@ theorem read_step (a : Aead) (ha : Good a) (key : Bytes) (r : Receiver) (cs : Li
     | nil =>
       have hw : r.wire = [] := by rw [h.wire]; rfl
       obtain ⟨e1, e2, e3⟩ := readFrame_empty a key r len hw
-      refine ⟨[], ?_, ?_, ?_, ?_, ?_, ?_, ?_, ?_⟩ <;> simp only [SecretConn.read, readFixed, hb, ne_eq, not_true_eq_false, if_false]
+      refine ⟨[], ?_, ?_, ?_, ?_⟩ <;> simp only [SecretConn.read, hb, ne_eq, not_true_eq_false, if_false]
       · rw [e1]; exact h
       · rw [e1, e3, hb]; simp
-      · rw [e3, e2]; rfl
-      · left; rw [e3, e2]; rfl
       · intro _ _; rw [e1]; exact hb
       · left; rw [e1]; simp
     | cons c cs =>
       have hc : c.length ≤ dataMaxSize := h.sizes c (by simp)
       have e := readFrame_cons a ha key r len c cs hc h.wire
-      refine ⟨cs, ?_, ?_, ?_, ?_, ?_, ?_, ?_, ?_⟩ <;>
-        simp only [SecretConn.read, readFixed, hb, ne_eq, not_true_eq_false, if_false, e]
+      refine ⟨cs, ?_, ?_, ?_, ?_⟩ <;>
+        simp only [SecretConn.read, hb, ne_eq, not_true_eq_false, if_false, e]
       · exact ⟨rfl, fun x hx => h.sizes x (List.mem_cons_of_mem _ hx)⟩
       · rw [← List.append_assoc, List.take_append_drop]; simp
-      · left; trivial
       · intro _ hl
         exact List.drop_eq_nil_of_le (by omega)
       · right; simp
-  · refine ⟨cs, ?_, ?_, ?_, ?_, ?_, ?_, ?_, ?_⟩
+  · refine ⟨cs, ?_, ?_, ?_, ?_⟩
     · rw [read_buffered a key r len hb]; exact ⟨h.wire, h.sizes⟩
     · rw [read_buffered a key r len hb]; simp only []; rw [← List.append_assoc, List.take_append_drop]
-    · rw [read_buffered a key r len hb, readFixed_buffered a key r len hb]
-    · rw [read_buffered a key r len hb, readFixed_buffered a key r len hb]
-    · rw [read_buffered a key r len hb, readFixed_buffered a key r len hb]
-    · right; rw [read_buffered a key r len hb]; exact ⟨hb, rfl⟩
     · intro h0; exact absurd h0 hb
     · left; rw [read_buffered a key r len hb]; exact ⟨rfl, rfl⟩
 
